@@ -11,6 +11,7 @@ import (
 	"path/filepath"
 	"runtime/debug"
 	"runtime/pprof"
+	"sort"
 	"strconv"
 	"strings"
 	"time"
@@ -51,8 +52,24 @@ func main() {
 	flag.Parse()
 
 	// the interpreter allocates a lot of short-lived boxed values: trade memory for fewer collections
-	debug.SetGCPercent(600)
-	debug.SetMemoryLimit(3 << 30)
+	debug.SetGCPercent(300)
+	debug.SetMemoryLimit(1500 << 20)
+	if sp := interp.StepProfile(); sp != nil {
+		defer func() {
+			type kv struct {
+				k string
+				v int64
+			}
+			var l []kv
+			for k, v := range sp {
+				l = append(l, kv{k, v})
+			}
+			sort.Slice(l, func(i, j int) bool { return l[i].v > l[j].v })
+			for i := 0; i < len(l) && i < 25; i++ {
+				fmt.Fprintf(os.Stderr, "steps %12d %s\n", l[i].v, l[i].k)
+			}
+		}()
+	}
 	if *cpuprof != "" {
 		f, _ := os.Create(*cpuprof)
 		pprof.StartCPUProfile(f)
